@@ -260,7 +260,7 @@ func absoluteBlock(context *layoutContext, box_ Box, containingBlock block, fixe
 	}
 
 	for _, childPlaceholder := range absoluteBoxes {
-		absoluteLayout(context, childPlaceholder, newBox, fixedBoxes, bottomSpace, skipStack)
+		absoluteLayout(context, childPlaceholder, newBox, fixedBoxes, bottomSpace, nil)
 	}
 
 	if translateBoxWidth {
